@@ -52,7 +52,10 @@ def _stub_to_python_value_set(stub_value, ignore_compiled=False):
 def _infer_from_stub(stub_module_context, qualified_names, ignore_compiled):
     from jedi.inference.compiled.mixed import MixedObject
     stub_module = stub_module_context.get_value()
-    assert isinstance(stub_module, (StubModuleValue, MixedObject)), stub_module_context
+    if not isinstance(stub_module, (StubModuleValue, MixedObject)):
+        # A stub file that is not importable (e.g. not on the sys path) is a
+        # normal ModuleValue (see ModuleValue.is_stub) without Python values.
+        return NO_VALUES
     non_stubs = stub_module.non_stub_value_set
     if ignore_compiled:
         non_stubs = non_stubs.filter(lambda c: not c.is_compiled())
